@@ -559,6 +559,14 @@ func (c *FmtCodec) writeSegmentsParagraph(segs []segment) {
 			for _, line := range lines[1:] {
 				c.finishLine()
 				c.startLine()
+				if canStartBlockLookalike(line) {
+					// A continuation line of the raw HTML that looks like the
+					// start of another block would be parsed as one. Inserting 4
+					// spaces prevents that, and won't make the line parse as an
+					// indented code block, since the latter can't interrupt a
+					// paragraph.
+					c.write("    ")
+				}
 				c.write(line)
 			}
 		case segTextNoReflow:
@@ -579,6 +587,12 @@ func (c *FmtCodec) writeSegmentsParagraph(segs []segment) {
 var (
 	whitespaceRunRegexp = regexp.MustCompile(`[ \t\n]+`)
 )
+
+// Reports whether a line starts with a character that can start a block
+// interrupting a paragraph (or turn it into a setext heading).
+func canStartBlockLookalike(line string) bool {
+	return line != "" && strings.IndexByte(">-+*#=_~`<0123456789", line[0]) >= 0
+}
 
 func (c *FmtCodec) writeSegmentsParagraphReflow(segs []segment, maxWidth int) {
 	// Rearrange the segments into spans with the following properties:
